@@ -665,3 +665,57 @@ Definition all_modes_neg (sh : shape) : bool :=
   negb (sh_pos sh)
   && forallb (fun p => forallb is_neg (p_modes p)) (sh_params sh)
   && forallb (fun b => forallb is_neg (b_modes b)) (sh_bodies sh).
+
+(* ====================================================================== *)
+(* Part 4: object-level generators, at the level of labels                 *)
+(* ====================================================================== *)
+(* a generation context: which modes are requested (CoverageContext.generation_modes) *)
+Definition gctx := (bool * bool)%type.                    (* (POSITIVE requested, NEGATIVE requested) *)
+Definition with_negative_ctx (c : gctx) : gctx := (false, true).   (* CoverageContext.with_negative *)
+Definition with_positive_ctx (c : gctx) : gctx := (true, false).   (* CoverageContext.with_positive *)
+
+(* what the harness records about a sub-schema: the labels cover_schema_iter yields for it under a
+   POSITIVE-only and under a NEGATIVE-only context (positive block first, then the negative block) *)
+Record osub := { os_pos : list mode; os_neg : list mode }.
+Definition cover_sub (c : gctx) (s : osub) : list mode :=
+  (if fst c then os_pos s else []) ++ (if snd c then os_neg s else []).
+Definition sub_respects_modes (s : osub) : bool :=
+  forallb (fun m => negb (is_neg m)) (os_pos s) && forallb is_neg (os_neg s).
+
+(* the object/array keys of cover_schema_iter that wrap or build negative values, in dict order *)
+Inductive okey :=
+| OKProperties (subs : list osub)          (* coverage.py:354 -> _negative_properties (780-792) *)
+| OKPatternProperties (subs : list osub)   (* coverage.py:357 -> _negative_pattern_properties (795-810) *)
+| OKItems (sub : osub)                     (* coverage.py:360 -> _negative_items (813-821) *)
+| OKRequired (n : nat)                     (* coverage.py:437 -> _negative_required (865-874) *)
+| OKAdditionalFalse.                       (* coverage.py:440-451 *)
+Inductive wrapper := WProperty (i : nat) | WPatternProperty (i : nat) | WItems | WRequired (i : nat) | WAdditional.
+(* a yielded value: its label, how it was built, and the label of the sub-schema value it wraps
+   (None = structural: a property removed / an undeclared property added) *)
+Record oitem := { oi_label : mode; oi_via : wrapper; oi_sub : option mode }.
+
+(* every one of the three wrappers iterates the sub-schema with nctx = ctx.with_negative() and
+   yields NegativeValue *)
+Definition wrap_all (c : gctx) (mk : nat -> wrapper) (subs : list osub) : list oitem :=
+  flat_map (fun is => map (fun m => {| oi_label := Neg; oi_via := mk (fst is); oi_sub := Some m |})
+                          (cover_sub (with_negative_ctx c) (snd is)))
+           (enumerate_from 0 subs).
+Definition object_key_negatives (c : gctx) (k : okey) : list oitem :=
+  match k with
+  | OKProperties subs => wrap_all c WProperty subs
+  | OKPatternProperties subs => wrap_all c WPatternProperty subs
+  | OKItems sub => map (fun m => {| oi_label := Neg; oi_via := WItems; oi_sub := Some m |}) (cover_sub (with_negative_ctx c) sub)
+  | OKRequired n => map (fun i => {| oi_label := Neg; oi_via := WRequired i; oi_sub := None |}) (seq 0 n)
+  | OKAdditionalFalse => [{| oi_label := Neg; oi_via := WAdditional; oi_sub := None |}]
+  end.
+(* the negative block of cover_schema_iter restricted to these keys (coverage.py:340) *)
+Definition object_negatives (c : gctx) (keys : list okey) : list oitem :=
+  if snd c then flat_map (object_key_negatives c) keys else [].
+
+(* _positive_object (coverage.py:728-745): the sizes of the objects built by dropping optional
+   properties; r = number of required properties, o = number of optional ones *)
+Inductive osize_desc := OOneOptional | OSubset | OOnlyRequired.
+Definition object_subset_sizes (r o : nat) : list (osize_desc * nat) :=
+  (if Nat.eqb o 1 then [] else map (fun _ => (OOneOptional, (r + 1)%nat)) (seq 0 o))   (* combo != template *)
+  ++ map (fun size => (OSubset, (r + size)%nat)) (seq 2 (o - 2))                          (* select_combinations *)
+  ++ (if Nat.eqb o 0 then [] else [(OOnlyRequired, r)]).                                  (* set(properties) != required *)
